@@ -185,11 +185,11 @@ fn current_handles(ids: [Index; NI], st: &[IdxState; NI]) -> [Option<Entity>; NI
     cur
 }
 
-pub fn det_step<T: Observe>(ids: [Index; NI], order: [usize; NI], t: usize)
+pub fn det_step<T: Observe>(ids: [Index; NI], order: [usize; NI], t: usize, ops: (u8, u8))
 where
     T::Storage: Default,
 {
-    let mut r = Recipe { vals: [0; NI], removed: [false; NI], x: nd::u8(), op: nd::below(6) };
+    let mut r = Recipe { vals: [0; NI], removed: [false; NI], x: nd::u8(), op: ops.0 + nd::below(ops.1 - ops.0 + 1) };
     for i in 0..NI {
         r.vals[i] = nd::u8();
         r.removed[i] = nd::bool();
@@ -208,8 +208,12 @@ where
     let (r1, r2) = (apply::<T>(&mut s1, r.op, h, r.x), apply::<T>(&mut s2, r.op, h, r.x));
     assert!(r1 == r2, "C20: the same operation returned different results in two identical worlds");
     let (o1, o2) = (T::observe(&s1, ids, &cur), T::observe(&s2, ids, &cur));
-    for k in 0..12 {
-        assert!(o1[k] == o2[k], "C20: lookups, masks, join order or slice views differ between two identical worlds");
+    // 12 observations, compared in chunks of 4 (keeps every loop within the unwinding bound)
+    for c in 0..3 {
+        for j in 0..4 {
+            let k = c * 4 + j;
+            assert!(o1[k] == o2[k], "C20: lookups, masks, join order or slice views differ between two identical worlds");
+        }
     }
     witness!(r.op == 3 && r1 != 0, "det: a removal that returned a value");
     forget((s1, s2));
@@ -220,7 +224,7 @@ where
 /// Event streams of two identical change-tracking storages are identical.
 pub fn det_events(ids: [Index; NI], order: [usize; NI], t: usize) {
     type T = CFlagDense;
-    let mut r = Recipe { vals: [0; NI], removed: [false; NI], x: nd::u8(), op: nd::below(6) };
+    let mut r = Recipe { vals: [0; NI], removed: [false; NI], x: nd::u8(), op: nd::below(5) };
     for i in 0..NI {
         r.vals[i] = nd::u8();
         r.removed[i] = nd::bool();
